@@ -46,6 +46,12 @@ def rewrite(node, overrides, tower, active=frozenset()):
         c = _canon(n)
         if c in table and c not in act:
             return go(table[c], act | {c})
+        # rewriting an alias or a new type by hand means rewriting what it stands for (beartype applies the options to the
+        # target of a PEP 695 alias and to the supertype of a NewType): it is spelled out when the rewrite changes it
+        if n[0] in ('alias', 'nt'):
+            target = (H.ALIASES if n[0] == 'alias' else H.NEWTYPES)[n[1]][1]
+            new = go(target, act)
+            return new if _canon(new) != _canon(target) else n
         return H._map_children(n, lambda ch: go(ch, act))
     return go(node, active)
 
@@ -92,6 +98,10 @@ def contains_key(node, keys):
     def go(n):
         if _canon(n) in cs:
             found.append(1)
+        if n[0] == 'alias':          # a PEP 695 alias or a new type mentions what its target mentions
+            go(H.ALIASES[n[1]][1])
+        if n[0] == 'nt':
+            go(H.NEWTYPES[n[1]][1])
         H._map_children(n, lambda ch: go(ch) or ch)
     go(node)
     return bool(found)
